@@ -362,6 +362,14 @@ func c04Exec(op string) (string, *Violation) {
 		if root, want := c04RootName(data), c04Roots[f[1]]; root != want {
 			return "root-name", &Violation{Signature: "xml-root-name-" + f[1], Text: fmt.Sprintf("a %s marshals to a <%s> element, the OSM XML name is <%s>: %s", f[1], root, want, truncate(string(data), 300))}
 		}
+		// a value marshals like a pointer to it (encoding/xml finds a marshaler with a value receiver for both, one
+		// with a pointer receiver only for the pointer - and then names the element after the Go type)
+		if rv := reflect.ValueOf(v); rv.Kind() == reflect.Ptr && !rv.IsNil() {
+			data2, err2 := xml.Marshal(rv.Elem().Interface())
+			if err2 != nil || !bytes.Equal(data, data2) {
+				return "value-form", &Violation{Signature: "xml-value-form-" + f[1], Text: fmt.Sprintf("a %s value marshals differently from a pointer to it (%v):\nvalue:   %s\npointer: %s", f[1], err2, truncate(string(data2), 300), truncate(string(data), 300))}
+			}
+		}
 		back := c04Fresh(f[1])
 		if err := xml.Unmarshal(data, back); err != nil {
 			return "unmarshal-error", &Violation{Signature: "xml-unmarshal-error-" + f[1], Text: err.Error() + "\n" + string(data)}
